@@ -1,0 +1,33 @@
+//go:build verif
+
+package cloudwatch
+
+import (
+	"context"
+
+	"github.com/aws/aws-sdk-go-v2/service/cloudwatch"
+	"github.com/sirupsen/logrus"
+
+	"github.com/atlassian/gostatsd"
+)
+
+// verifFakeC04 is a CloudwatchClient that reports the size of every PutMetricData request.
+type verifFakeC04 struct {
+	put func(datums int) error
+}
+
+func (f verifFakeC04) PutMetricData(_ context.Context, in *cloudwatch.PutMetricDataInput, _ ...func(*cloudwatch.Options)) (*cloudwatch.PutMetricDataOutput, error) {
+	return &cloudwatch.PutMetricDataOutput{}, f.put(len(in.MetricData))
+}
+
+// VerifNewClientC04 builds a Client around a fake CloudWatch API (NewClient needs an AWS
+// configuration, which a sandbox does not have).  put is called once per PutMetricData request
+// with the number of datums in it.
+func VerifNewClientC04(namespace string, disabled gostatsd.TimerSubtypes, logger logrus.FieldLogger, put func(datums int) error) *Client {
+	return &Client{
+		logger:           logger,
+		cloudwatch:       verifFakeC04{put: put},
+		namespace:        namespace,
+		disabledSubtypes: disabled,
+	}
+}
